@@ -87,6 +87,31 @@ RECIPES.update({
     'multi_channel_iteration': dict(unit='drivers', name='multi_channel_iteration', opts=dict(_ACC_OPTS, free_calls={'make_accumulator': _h_make_accumulator}, rename={'accumulator_nodist_invoke': 'accumulator_nodist_invoke_mc'})),
 })
 
+RECIPES.update({
+    'chkpt_plain_result_rollback': dict(unit='chkpt', name='rollback', cls='chkpt', cls_targs_has='plain_result', self='chkpt_plain_result'),
+    'rng_chkpt_plain_result_rollback': dict(unit='chkpt', name='rollback', cls='chkpt_with_rng', cls_targs_has='plain_result', self='rng_chkpt_plain_result', opts=dict(throws=['chkpt_plain_result_rollback'])),
+    'rng_chkpt_plain_result_add': dict(unit='chkpt', name='add', cls='chkpt_with_rng', cls_targs_has='plain_result', self='rng_chkpt_plain_result'),
+    'rng_chkpt_plain_result_generator': dict(unit='chkpt', name='generator', cls='chkpt_with_rng', cls_targs_has='plain_result', self='rng_chkpt_plain_result'),
+    'chkpt_plain_result_results': dict(unit='chkpt', name='results', cls='chkpt', cls_targs_has='plain_result', self='chkpt_plain_result'),
+})
+
+RECIPES.update({
+    'vegas_chkpt_pdf': dict(unit='chkpt', name='pdf', cls='vegas_chkpt', self='vegas_chkpt'),
+    'vegas_chkpt_dimensions': dict(unit='chkpt', name='dimensions', cls='vegas_chkpt', self='vegas_chkpt'),
+    'multi_channel_chkpt_channel_weights': dict(unit='chkpt', name='channel_weights', cls='multi_channel_chkpt', self='multi_channel_chkpt'),
+    'multi_channel_chkpt_channels': dict(unit='chkpt', name='channels', cls='multi_channel_chkpt', self='multi_channel_chkpt'),
+    'multi_channel_chkpt_ctor3': dict(unit='chkpt', name='multi_channel_chkpt', cls='multi_channel_chkpt', self='multi_channel_chkpt', ctor=True, sel='std::vector'),
+})
+
+RECIPES.update({
+    'chkpt_vegas_result_results': dict(unit='chkpt', name='results', cls='chkpt', cls_targs_has='vegas_result', self='chkpt_vegas_result'),
+    'chkpt_multi_channel_result_results': dict(unit='chkpt', name='results', cls='chkpt', cls_targs_has='multi_channel_result', self='chkpt_multi_channel_result'),
+    'vegas_result_pdf': dict(unit='chkpt', name='pdf', cls='vegas_result', self='vegas_result'),
+    'vegas_result_adjustment_data': dict(unit='chkpt', name='adjustment_data', cls='vegas_result', self='vegas_result'),
+    'multi_channel_result_channel_weights': dict(unit='chkpt', name='channel_weights', cls='multi_channel_result', self='multi_channel_result'),
+    'multi_channel_result_adjustment_data': dict(unit='chkpt', name='adjustment_data', cls='multi_channel_result', self='multi_channel_result'),
+})
+
 # ---- fragments: single expressions inside the MPI drivers -----------------------------------
 _SUBP = [('size_t', 'calls'), ('int', 'rank'), ('int', 'world')]
 _DISP = [('size_t', 'calls'), ('int', 'rank'), ('int', 'world'), ('size_t', 'usage')]
@@ -113,6 +138,16 @@ _MAPGHOSTS = (' size_t vp_map_calls, vp_coord_calls, vp_dens_calls; int vp_map_a
               'const void *vp_map_rn, *vp_map_coords, *vp_map_enabled, *vp_map_dens; T vp_map_ret; T vp_g_total; int vp_phase; size_t vp_c_channel; const void *vp_c_rn, *vp_c_coords, *vp_c_enabled, *vp_c_dens; const void *vp_sel_src; _Bool vp_g_total_ok; T vp_g_uk;')
 _ST_MC = [dict(cls='mc_point'), dict(cname='vpinst_Map', opaque=True), dict(unit='drivers', cls='multi_channel_point'),
           dict(unit='drivers', cls='multi_channel_point2')]
+_ST_CHK = [dict(cls='distribution_parameters', vec=True), dict(cls='mc_result', vec=True), dict(cls='distribution_result', vec=True), dict(cls='plain_result', vec=True),
+           dict(prelude='rngvec.h'), dict(unit='chkpt', cls='chkpt', cls_targs=['hep::plain_result<double>'], cname='chkpt_plain_result'),
+           dict(unit='chkpt', cls='chkpt_with_rng', cls_targs_has='plain_result', cname='rng_chkpt_plain_result')]
+_REFGHOST = 'size_t vp_refine_calls; const void *vp_refine_state, *vp_refine_data; T vp_refine_p1, vp_refine_p2;'
+_ST_VCHK = [dict(cls='distribution_parameters', vec=True), dict(cls='mc_result', vec=True), dict(cls='distribution_result', vec=True), dict(cls='plain_result', vec=True),
+            dict(cls='vegas_pdf', cls_targs=['double'], vec=True), dict(unit='drivers', cls='vegas_result', vec=True),
+            dict(unit='chkpt', cls='chkpt', cls_targs=['hep::vegas_result<double>'], cname='chkpt_vegas_result'), dict(unit='chkpt', cls='vegas_chkpt', cls_targs=['double'])]
+_ST_MCHK = [dict(cls='distribution_parameters', vec=True), dict(cls='mc_result', vec=True), dict(cls='distribution_result', vec=True), dict(cls='plain_result', vec=True),
+            dict(unit='drivers', cls='multi_channel_result', vec=True),
+            dict(unit='chkpt', cls='chkpt', cls_targs=['hep::multi_channel_result<double>'], cname='chkpt_multi_channel_result'), dict(unit='chkpt', cls='multi_channel_chkpt', cls_targs=['double'])]
 _T_USER = 'user integrand and virtual point.weight() are contract stubs returning any value of T (NaN, +-inf, +-0 included)'
 
 JOBS = [
@@ -194,9 +229,30 @@ JOBS = [
          preludes=['opaque.h'], late_preludes=['stubs.h', 'algo.h'], globals=_GHOSTS + _MAPGHOSTS,
          defines=['VP_DIMSMAX=1024', 'VP_NMAX=1048576', 'VP_CALLSMAX=1099511627776', 'VP_MC_PROTOCOL'], props=['C02', 'C10', 'C17', 'C06', 'C19', 'C09', 'C01'],
          trusted=[_T_USER, 'the channel map is user code (contract stub)', 'std::generate_canonical: assumed contract']),
+    dict(name='chkpt_rollback', functions=['rng_chkpt_plain_result_rollback', 'chkpt_plain_result_rollback'], entry='h_rng_chkpt_plain_result_rollback',
+         enforce='rng_chkpt_plain_result_rollback', structs=_ST_CHK, preludes=['opaque.h'], late_preludes=[], defines=['VP_NMAX=1048576'], props=['C15']),
+    dict(name='chkpt_add', functions=['rng_chkpt_plain_result_add'], entry='h_rng_chkpt_plain_result_add',
+         enforce='rng_chkpt_plain_result_add', structs=_ST_CHK, preludes=['opaque.h'], defines=['VP_NMAX=1048576'], props=['C15', 'C03', 'C12']),
+    dict(name='chkpt_generator', functions=['rng_chkpt_plain_result_generator'], entry='h_rng_chkpt_plain_result_generator',
+         enforce='rng_chkpt_plain_result_generator', structs=_ST_CHK, preludes=['opaque.h'], defines=['VP_NMAX=1048576'], props=['C15', 'C03']),
+    dict(name='vegas_chkpt_pdf', functions=['vegas_chkpt_pdf', 'chkpt_vegas_result_results', 'vegas_result_pdf', 'vegas_result_adjustment_data', 'vegas_refine_pdf'],
+         specs=['vegas_chkpt_pdf', 'refine_abs'], entry='h_vegas_chkpt_pdf', enforce='vegas_chkpt_pdf', replace=['vegas_refine_pdf'],
+         structs=_ST_VCHK, preludes=['opaque.h'], globals=_REFGHOST, defines=['VP_NMAX=1048576'], props=['C19', 'C03', 'C07'], stub_bodies=['vegas_refine_pdf']),
+    dict(name='vegas_pdf_ctor', functions=['vegas_pdf_ctor2'], entry='h_vegas_pdf_ctor2', enforce='vegas_pdf_ctor2', af=['vegas_pdf_ctor2'],
+         structs=[dict(cls='vegas_pdf', cls_targs=['double'])], defines=['VP_DIMSMAX=1024', 'VP_BINSMAX=1048576'], props=['C07', 'C19'], thorough_reals=['float']),
+    dict(name='vegas_chkpt_dimensions', functions=['vegas_chkpt_dimensions', 'chkpt_vegas_result_results', 'vegas_result_pdf', 'vegas_pdf_dimensions', 'vegas_pdf_ctor2'],
+         specs=['vegas_chkpt_dimensions', 'vegas_pdf_ctor2'], entry='h_vegas_chkpt_dimensions', enforce='vegas_chkpt_dimensions', replace=['vegas_pdf_ctor2'], harness_sections=['vegas_chkpt_dimensions'], no_sof=True,
+         structs=_ST_VCHK, preludes=['opaque.h'], defines=['VP_NMAX=1048576', 'VP_DIMSMAX=1024', 'VP_BINSMAX=1048576'], props=['C19', 'C15']),
+    dict(name='mc_chkpt_channel_weights', functions=['multi_channel_chkpt_channel_weights', 'chkpt_multi_channel_result_results', 'multi_channel_result_channel_weights', 'multi_channel_result_adjustment_data', 'multi_channel_refine_weights'],
+         specs=['multi_channel_chkpt_channel_weights', 'refine_abs'], entry='h_multi_channel_chkpt_channel_weights', enforce='multi_channel_chkpt_channel_weights', replace=['multi_channel_refine_weights'],
+         structs=_ST_MCHK, preludes=['opaque.h'], globals=_REFGHOST, defines=['VP_NMAX=1048576'], props=['C19', 'C03', 'C08'], stub_bodies=['multi_channel_refine_weights']),
+    dict(name='mc_chkpt_channels', functions=['multi_channel_chkpt_channels', 'chkpt_multi_channel_result_results', 'multi_channel_result_channel_weights'],
+         specs=['multi_channel_chkpt_channels'], entry='h_multi_channel_chkpt_channels', enforce='multi_channel_chkpt_channels',
+         structs=_ST_MCHK, preludes=['opaque.h'], defines=['VP_NMAX=1048576'], props=['C19', 'C15', 'C08']),
     dict(name='refine_weights', functions=['multi_channel_refine_weights'], entry='h_multi_channel_refine_weights',
-         enforce='multi_channel_refine_weights', replace=['vp_pow'], real='double', defines=['VP_NMAX=4096'],
-         props=[]),
+         enforce='multi_channel_refine_weights', replace=['vp_pow'], af=['multi_channel_refine_weights'], globals='T vp_g_s1, vp_g_s2; _Bool vp_g_nodata;',
+         defines=['VP_NMAX=1048576'], props=['C08'], thorough_reals=['float'],
+         assumptions=['libm pow: assumed contract (vp/prelude/vp.h)', 'hypotheses of C08: the normalisation sums do not overflow; with information the second sum is positive and finite'])
 ]
 
 # ---- B2 jobs ---------------------------------------------------------------------------------------
@@ -213,4 +269,5 @@ NATIVEJOBS = []
 
 REPLAYS = {'c16_tiling': dict(cpp='c16', link_fragments=sorted(FRAGMENTS)),
            'invoke_nodist': 'invoke', 'invoke_dist': 'invoke',
+           'refine_weights': 'refine_weights', 'chkpt_rollback': 'chkpt', 'chkpt_add': 'chkpt', 'chkpt_generator': 'chkpt',
            'discrete_ctor': 'discrete', 'discrete_call': 'discrete', 'discrete_select': 'discrete', 'partial_sum': 'discrete'}
